@@ -95,6 +95,7 @@ def run(ctx):
             cases.append({"src": x["src"], "off": x["off"], "len": x["len"], "mode": rng.choice(["plain", "str"])})
     nrand = 2000 if q else 100000
     cases += random_cases(rng, nrand)
+    rng.shuffle(cases)          # long and short buffers evenly over the validation chunks
     evs = nc.run_commands(ctx, commands(cases))
     ctx.tick("probe")
     cases = [c for c, e in zip(cases, evs) if not e.get("skipped")]
@@ -106,13 +107,13 @@ def run(ctx):
     for c, e in zip(cases, mon):
         n = c["len"] if c["len"] >= 0 else c["src"]["sz"] - c["off"]
         ctx.case((c["mode"], c["src"], c["off"], c["len"], e["ret"], e["abort"]), nontrivial=n > 0)
-    seen = set()
+    per_sig = {}
     for f in fails:
         gi = f["exec"] * PER_EXEC + f["pos"] - 1
         c = cases[gi]
-        if f["sig"] in seen and len(seen) > 0 and sum(1 for _ in seen) > 20:
+        per_sig[f["sig"]] = per_sig.get(f["sig"], 0) + 1
+        if per_sig[f["sig"]] > 3:
             continue
-        seen.add(f["sig"])
         case = {"call": {"mode": c["mode"], "offset": c["off"], "len": c["len"], "size": c["src"]["sz"],
                          "buffer": c["src"] if c["src"]["kind"] == "pat" or c["src"]["sz"] <= 64 else "(literal, %d bytes)" % c["src"]["sz"]},
                 "command": commands([c])[0][:400], "observed": {k: mon[gi][k] for k in ("ret", "abort", "san")}}
@@ -123,13 +124,17 @@ def run(ctx):
                 "offset/length, 1350 patterned buffers up to 2100 bytes) and %d seeded random calls, executed on the real "
                 "calc_chksum with the bytes outside the range poisoned; one evaluation = one call judged by T_Chksum; "
                 "non-trivial = non-empty range" % (len(exported), 5 if q else 7, nrand))
-    for i in sorted({min(len(cases) - 1, k) for k in (len(exported) // 3, len(exported) - 7, len(cases) - 1)}):
+    picks = [next(i for i, c in enumerate(cases) if c["src"]["kind"] == "lit" and c["src"]["sz"] >= 5 and c["off"] > 0),
+             next(i for i, c in enumerate(cases) if c["src"]["kind"] == "pat" and c["len"] == -1),
+             next(i for i, c in enumerate(cases) if c["src"]["kind"] == "lit" and c["src"]["sz"] > 20)]
+    for i in picks:
         ctx.sample({"call": {k: cases[i][k] for k in ("mode", "off", "len")}, "size": cases[i]["src"]["sz"],
                     "monitor_event": {k: v for k, v in mon[i].items() if k != "src"}})
     ctx.trusted = ["TLC", "probe_num (moves data only)", "ASan exact allocation + manual poisoning as the observer of out-of-range reads",
                    "Python mirror of PatByte (lib/num_common.py)"]
     ctx.assumptions = ["calls are inside the function's domain: offset <= size, offset + len <= size, len >= 0 or absent",
                        "unaligned 32-bit loads are not a defect (x86-64); UBSan alignment check disabled for the probe"]
+    ctx.extra["rejections_by_signature"] = per_sig
     nc.guard_truncation(ctx)
     ctx.extra["classes"] = {k: sum(1 for c in cases if klass(c) == k) for k in ("remainder_after_offset", "whole_buffer", "explicit_length")}
 
